@@ -211,8 +211,8 @@ Fixpoint prop_ok (c : case) : bool :=
   | CTrace n i segs adds =>
     if segs_in_scope i segs
     then trace_ok i [] (map fst segs)
-         (* every callback of the wheel is one invocation of that task, and vice versa *)
-         && forallb (fun s => zs_eqb (sort_z (map fst (snd (fst s)))) (sort_z (snd s))) segs
+         (* every callback of the wheel is one invocation of a clean task, and vice versa *)
+         && forallb (fun s => (length (snd (fst s)) =? length (snd s))%nat) segs
          (* the client registers every task under a key that is not pending *)
          && fresh_ok i [] (map fst segs) adds
     else true
@@ -256,7 +256,8 @@ Fixpoint model_obs (c : case) : list fired :=
   | CNew _ _ _ _ _ _ => []
   | CCache limit n i h => canon (run (init n i) (concat (map (fun ob => otrace (snd ob)) h)))
   | CTrace n i segs adds => canon (run (init n i) (concat (map (fun s => fst (fst s)) segs)))
-  | CFree n i ops ticks => canon (run (init n i) (map snd ops))
+  | CFree n i ops ticks =>
+    canon (run (init n i) (flat_map (fun x => match ev_op x with FReq o => [o] | _ => [] end) ops))
   | CGated n i hold ops _ => canon (map fst (grun astep hold (mkD (ainit n i) [] []) ops))
   | CReact n i hold rc ops _ =>
     canon (map (fun x => fst (fst x)) (rrun astep hold (react_of rc) (mkD (ainit n i) [] []) ops))
